@@ -21,7 +21,7 @@ pub fn check() -> Check {
     Check {
         id: "C19",
         level: "exploration",
-        rule: "each run draws a program over one family of tokio-compatible primitives (Semaphore, Mutex, RwLock, mpsc bounded/unbounded, oneshot, watch, Notify, task spawn/JoinHandle/abort; a mixed family; a directed batch of scenario templates), 2-4 bodies (async tasks and plain threads using the blocking variants) of 1-5 operations, fault combinators drawn from the seed (cancel_future after 0/1/2 polls, abort, drop_endpoint, close, timeout + trigger_timeouts), a scheduling policy and a seed; the real wrappers run under SimSched for 3 executions; history monitors, the lockstep powerset oracle over reference models written from the tokio documentation, exclusion monitors and the deadlock / panic verdict are checked. Distinct = (program, chosen task sequence); non-trivial = at least one switch between tasks",
+        rule: "each run draws a program over one family of tokio-compatible primitives (Semaphore, Mutex, RwLock, mpsc bounded/unbounded, oneshot, watch incl. cloned senders, Notify, task spawn/JoinHandle/abort; a mixed family; a directed batch of scenario templates), 2-4 bodies (async tasks and plain threads using the blocking variants) of 1-5 operations, fault combinators drawn from the seed (cancel_future after 0/1/2 polls, abort, drop_endpoint, close, timeout + trigger_timeouts), a scheduling policy and a seed; the real wrappers run under SimSched for 3 executions; history monitors, the lockstep powerset oracle over reference models written from the tokio documentation, exclusion monitors and the deadlock / panic verdict are checked. Distinct = (program, chosen task sequence); non-trivial = at least one switch between tasks",
         assumptions: &[
             "reference models in harness/src/checks/c19_model.rs / c19_micro_*.rs encode the documented tokio semantics (tokio 1.53 docs and source consulted)",
             "programs are small (<= 4 bodies, <= 5 operations each plus spawns/joins)",
